@@ -83,7 +83,13 @@ def main(inp, outp):
             return "state+date", (cart(r), instant(r.date))
         if op == "keplernum":
             o = kep_orbit(le, KeplerNum(timedelta(seconds=60), get_body("Earth"))).copy(form="cartesian")
-            return "state", cart(o.propagate(lab(EPOCH + timedelta(minutes=47), la)))
+            ou = kep_orbit("UTC", KeplerNum(timedelta(seconds=60), get_body("Earth"))).copy(form="cartesian")
+            coincide = Date(lab(EPOCH + timedelta(minutes=13), le).datetime, scale=la)    # reading = reading of a grid point
+            outs, refs = [], []
+            for a in (lab(EPOCH + timedelta(minutes=47), la), coincide):
+                outs.append(cart(o.propagate(a)))
+                refs.append(cart(ou.propagate(a.change_scale("UTC"))))
+            return "pairs", (outs, refs)
         if op == "cw":
             o = Orbit([-600.0, -1500.0, 200.0, 0.3, 1.1, -0.2], lab(EPOCH, le), "cartesian", "Hill", ClohessyWiltshire(7.0e6))
             return "state", np.asarray(o.propagate(arg), float)
@@ -99,8 +105,19 @@ def main(inp, outp):
             return "state", np.concatenate([a, b * np.array([1, 1e6, 1e6, 1, 1e6, 1e6]), c])
         if op == "ephem":
             base = kep_orbit("UTC", "Kepler")
-            eph = Ephem([base.propagate(lab(EPOCH + timedelta(seconds=60 * k), le)) for k in range(-6, 400)])
-            return "state", cart(eph.interpolate(arg))
+            nodes = [EPOCH + timedelta(seconds=60 * k) for k in range(-6, 400)]
+            eph = Ephem([base.propagate(lab(d, le)) for d in nodes])
+            ephu = Ephem([base.propagate(d) for d in nodes])
+            # besides the generic date: a date whose CLOCK READING in its own scale equals the clock reading of a tabulated
+            # point in the table's scale (a different instant unless the labels agree) - and the tabulated instant itself
+            coincide = Date(lab(nodes[200], le).datetime, scale=la)
+            outs, refs = [], []
+            for a in (arg, coincide, lab(nodes[100], la)):
+                if not (nodes[0] <= a <= nodes[-1]):
+                    continue
+                outs.append(cart(eph.interpolate(a)))
+                refs.append(cart(ephu.interpolate(a.change_scale("UTC"))))
+            return "pairs", (outs, refs)
         if op == "events":
             o = kep_orbit(le, "Kepler")
             out = []
@@ -151,6 +168,12 @@ def main(inp, outp):
             err = float(np.abs(got - ref).max())
             clause(f"{op}: same physical result whatever the labels (|v| x 3 us)", err <= tol, f"scale/{op}",
                    f"{op} la={la} le={le}: differs from the UTC/UTC result by {err:.6g} (tolerance {tol:.3g})", data)
+        elif kind == "pairs":
+            outs, refs = got
+            err = max(float(np.abs(a - b).max()) for a, b in zip(outs, refs))
+            vmag = max(np.linalg.norm(refs[0][3:6]), 1.0)
+            clause(f"{op}: same physical result whatever the labels (|v| x 3 us + 5 mm)", err <= vmag * 3e-6 + 5e-3, f"scale/{op}",
+                   f"{op} la={la} le={le}: differs from the all-UTC computation at the same instant by {err:.6g}", data)
         elif kind == "state+date":
             err = float(np.abs(got[0] - ref[0]).max())
             clause(f"{op}: same physical result whatever the labels", err <= 1e-6 and abs(dt_inst(got[1], ref[1])) <= 3e-6, f"scale/{op}",
